@@ -31,6 +31,7 @@ static void *worker(void *arg) {
 
 int main(int argc, char **argv) {
     nthreads = argc > 1 ? atoi(argv[1]) : 16; rounds = argc > 2 ? atoi(argv[2]) : 2000; seed = argc > 3 ? (unsigned)atoi(argv[3]) : 0;
+    ops_crystal_file = getenv("XRL_CRYSTALS_FILE");
     const char *loc = getenv("XDRV_LOCALE"); if (loc && *loc && !setlocale(LC_ALL, loc)) { fprintf(stderr, "cannot set locale\n"); return 5; }
     char before[128]; snprintf(before, sizeof before, "%s", setlocale(LC_ALL, NULL));
     XRayInit();
